@@ -2,7 +2,7 @@
    coordinates, intermediates. *)
 From Coq Require Import String Ascii List ZArith NArith Bool Lia.
 From TT Require Import Base.Outcome Base.Str Base.F64 Base.GoParse Base.Civil Xml.Print Laptimer.Leaves Laptimer.Value Laptimer.Codec
-     Proofs.Leaf_proofs Proofs.Fixed_proofs Proofs.Leaf2_proofs.
+     Proofs.Leaf_proofs Proofs.Fixed_proofs Proofs.Leaf2_proofs Proofs.Sync_proofs.
 Import ListNotations.
 Local Open Scope Z_scope.
 
@@ -63,8 +63,8 @@ Qed.
 Definition date_ok (t : Z) : Prop := first_day * ns_per_day <= t < (first_day + Z.of_nat n_days) * ns_per_day.
 
 (* the domain: numbers printable below 2^51 units of their last decimal, durations below 2^62 ns,
-   dates 1969-2068, texts of valid characters (tyre speed ratings without white space); sync points
-   are handled by the correspondence only *)
+   dates 1969-2068, texts of valid characters (tyre speed ratings without white space), sync points
+   whose seconds print below 2^51 hundredths *)
 Definition leaf_dom (l : leaf) : Prop :=
   match l with
   | LvStr t => forallb valid_char t = true
@@ -79,7 +79,7 @@ Definition leaf_dom (l : leaf) : Prop :=
   | LvGear _ r => printable 6 r
   | LvTyre _ _ sr _ => sr <> [] /\ has_ws sr = false /\ forallb valid_char sr = true
   | LvTags l => Forall (fun t => forallb valid_char t = true) l
-  | LvSync _ => False
+  | LvSync d => sync_dom d
   end.
 
 Lemma clean_text_valid t : forallb valid_char t = true -> clean_text t = t.
@@ -145,4 +145,5 @@ Proof.
     eexists. split; [apply tags_quant|]. rewrite !tags_text, join_split. cbn [rev app].
     apply clean_text_valid. apply join_valid. exact H.
   - eexists. split; reflexivity.
+  - apply sync_leaf_reencode. exact H.
 Qed.
